@@ -4,6 +4,7 @@ package main
 import (
 	"fmt"
 	"os"
+	"strings"
 
 	"verifharness/lib"
 )
@@ -39,6 +40,9 @@ func main() {
 	}
 	for _, u := range args {
 		r := ls.GetRaw(u)
+		if !strings.HasPrefix(u, "/livesim2/") {
+			r = ls.Get(u)
+		}
 		fmt.Printf("%s -> %d %s panic=%q len=%d\n", u, r.Status, r.Header.Get("Content-Type"), r.Panic, len(r.Body))
 		if len(r.Body) < 30000 && r.Header.Get("Content-Type") != "video/mp4" && r.Header.Get("Content-Type") != "audio/mp4" {
 			fmt.Println(string(r.Body))
